@@ -39,7 +39,7 @@ func (temporaryErr) Error() string   { return "injected read fault (temporary)" 
 func (temporaryErr) Temporary() bool { return true }
 func (temporaryErr) Timeout() bool   { return false }
 
-var errKinds = []string{"", "", "temporary", "unexpected-eof", "wrapped"}
+var errKinds = []string{"", "", "temporary", "unexpected-eof", "wrapped", "wrapped-eof"}
 
 // faultErr returns the error a faulting reader raises and a predicate recognising it in OnError.
 func faultErr(kind string) (error, func(error) bool) {
@@ -49,6 +49,11 @@ func faultErr(kind string) (error, func(error) bool) {
 	case "unexpected-eof":
 		// what a real reader returns for a stream cut short (a truncated gzip member)
 		return io.ErrUnexpectedEOF, func(e error) bool { return errors.Is(e, io.ErrUnexpectedEOF) }
+	case "wrapped-eof":
+		// an error that merely wraps io.EOF (a PathError / OpError around it) is not the end-of-stream value
+		// io.Reader defines: it is a read error like any other
+		e := fmt.Errorf("read /dev/fake: connection lost: %w", io.EOF)
+		return e, func(got error) bool { return got == e }
 	case "wrapped":
 		return fmt.Errorf("read /dev/fake: %w", errInjected), func(e error) bool { return errors.Is(e, errInjected) }
 	}
